@@ -441,6 +441,35 @@ def check_property(prop, tier='quick', seed=0, kani_runner=None):
                 except Exception as e:  # tool crash
                     errors.append('%s: internal error %r' % (n, e))
 
+    # graceful degradation: if the verifier's front end rejected the generated crate and every rejection lies inside woven function
+    # bodies, those bodies are left out (signature and contract stay, as for any callee) and the run is repeated once, so that all
+    # other functions - and the properties that do not depend on the rejected ones - still get their verdict
+    rejected = {}
+    if unit:
+        hard_all = [h for n in unit_names for h in ((results.get(n) or {}).get('hard') or [])]
+        if hard_all and all(h.get('fn') is not None and not h['fn'].external_body for h in hard_all):
+            for h in hard_all:
+                rejected.setdefault(h['fn'].addr, (h['fn'], '%s: %s' % (h['src'] or h['tmpl'], h['msg'][:200])))
+            try:
+                unit2 = weave.build_unit(force_stub=set(rejected))
+                path2 = runverus.write_unit(unit2, '_degraded')
+                names2 = prop_modules(unit2, prop)
+                results2 = {}
+                with cf.ThreadPoolExecutor(max_workers=4) as ex:
+                    futs = {ex.submit(run_module, unit2, path2, n, seed): n for n in names2}
+                    for fu in cf.as_completed(futs):
+                        results2[futs[fu]] = fu.result()
+                if not any((r.get('hard') or []) for r in results2.values()):
+                    unit, path, unit_names, results = unit2, path2, names2, results2
+                    for addr, (f0, why) in rejected.items():
+                        carried = sorted(set(f0.tags + f0.safety + [t for c in f0.clauses for t in (c[2] or [])]))
+                        if prop in carried:
+                            errors.append('the body of %s was rejected by the verifier front end (%s): its obligations are undecided' % (addr, why))
+                else:
+                    rejected = {}
+            except Exception as e:
+                rejected = {}
+
     # functions whose anchors were lost and that have failures: decide by the differential run whether those count
     degraded = {}
     if unit:
@@ -615,6 +644,7 @@ def check_property(prop, tier='quick', seed=0, kani_runner=None):
             relies_on_failing_obligations_of_other_properties=sorted(set(relies_on_open)),
             vacuity_probe=vac,
             lost_anchors=lost_report,
+            bodies_rejected_by_front_end=[dict(fn=a, why=w) for a, (f0, w) in rejected.items()],
             kani=kani_info,
             not_proved=pinfo.get('not_proved', []),
             rule='An obligation is one contract clause carrying an id (//# id) tagged with this property, '
